@@ -7,10 +7,12 @@ Import ListNotations.
 Local Open Scope nat_scope.
 
 (* ---------- the class of trees inside the quantifier, below the '=' spine ---------- *)
-(* a constant round-trips when its text is [-]run with run a number run that coerce reads back to the same value *)
+(* the same number (2 and 2.0, 1/2 and 2/4; nan equals nothing) *)
+Definition num_equiv (a b:num) : Prop := match qv a, qv b with Some x, Some y => (x == y)%Q | _, _ => False end.
+(* a constant round-trips when its text is [-]run with run a number run that coerce reads back to the same number *)
 Definition const_text (c:num) (neg:bool) (run:list N) (v:num) : Prop :=
   show_num c = Some ((if neg then [45%N] else []) ++ run) /\ forallb is_number run = true /\ run <> [] /\ coerce run = Ok v /\
-  (if neg then nneg v else v) = c /\ True.
+  num_equiv (if neg then nneg v else v) c.
 Fixpoint pr0 (e:expr) : Prop :=
   match e with
   | Const c => exists neg run v, const_text c neg run v
